@@ -17,8 +17,16 @@
 
 package sql
 
+import (
+	"context"
+
+	"seata.apache.org/seata-go/pkg/util/log"
+)
+
 type XATx struct {
-	tx *Tx
+	tx   *Tx
+	conn *XAConn
+	ctx  context.Context
 }
 
 // Commit do commit action
@@ -32,13 +40,32 @@ func (tx *XATx) Commit() error {
 
 func (tx *XATx) Rollback() error {
 	originTx := tx.tx
-	if originTx.tranCtx.OpenGlobalTransaction() && originTx.tranCtx.IsBranchRegistered() {
-		return originTx.report(false)
+	var err error
+	if tx.conn != nil {
+		// XA End(TMFAIL) & Rollback
+		err = tx.conn.Rollback(tx.ctx)
 	}
-	return nil
+	if originTx.tranCtx.OpenGlobalTransaction() && originTx.tranCtx.IsBranchRegistered() {
+		if reportErr := originTx.report(false); err == nil {
+			err = reportErr
+		}
+	}
+	return err
 }
 
-// commitOnXA commit xa and register branch transaction
+// commitOnXA ends phase one of the branch: XA End & Prepare. A failure rolls the branch back and is reported.
 func (tx *XATx) commitOnXA() error {
+	if tx.conn == nil {
+		return nil
+	}
+	if err := tx.conn.Commit(tx.ctx); err != nil {
+		originTx := tx.tx
+		if originTx.tranCtx.OpenGlobalTransaction() && originTx.tranCtx.IsBranchRegistered() {
+			if reportErr := originTx.report(false); reportErr != nil {
+				log.Errorf("failed to report xa branch %s as failed, err:%v", originTx.tranCtx.XID, reportErr)
+			}
+		}
+		return err
+	}
 	return nil
 }
